@@ -4987,29 +4987,29 @@ const InstDB::InstSignature InstDB::_inst_signature_table[] = {
   ROW(1, 1, 1, 0, 111, 0  , 0  , 0  , 0  , 0  ), // #277 {rel8|rel32}
   ROW(1, 1, 0, 0, 112, 0  , 0  , 0  , 0  , 0  ), //      {rel16|r32|m32}
   ROW(1, 0, 1, 0, 15 , 0  , 0  , 0  , 0  , 0  ), //      {r64|m64}
-  ROW(2, 1, 0, 0, 12 , 113, 0  , 0  , 0  , 0  ), // #280 {i16|u16, i16|u16|i32|u32}
-  ROW(1, 1, 1, 0, 114, 0  , 0  , 0  , 0  , 0  ), //      {m32|mem|m48}
-  ROW(1, 0, 1, 0, 115, 0  , 0  , 0  , 0  , 0  ), //      {m80|mem}
+  ROW(2, 1, 0, 0, 113, 114, 0  , 0  , 0  , 0  ), // #280 {u16, i16|u16|i32|u32}
+  ROW(1, 1, 1, 0, 115, 0  , 0  , 0  , 0  , 0  ), //      {m32|mem|m48}
+  ROW(1, 0, 1, 0, 116, 0  , 0  , 0  , 0  , 0  ), //      {m80|mem}
   ROW(2, 1, 1, 0, 4  , 30 , 0  , 0  , 0  , 0  ), // #283 {r16, m32|mem}
-  ROW(2, 1, 1, 0, 6  , 116, 0  , 0  , 0  , 0  ), //      {r32, m48|mem}
-  ROW(2, 0, 1, 0, 8  , 115, 0  , 0  , 0  , 0  ), //      {r64, m80|mem}
+  ROW(2, 1, 1, 0, 6  , 117, 0  , 0  , 0  , 0  ), //      {r32, m48|mem}
+  ROW(2, 0, 1, 0, 8  , 116, 0  , 0  , 0  , 0  ), //      {r64, m80|mem}
   ROW(2, 1, 1, 0, 4  , 24 , 0  , 0  , 0  , 0  ), // #286 {r16, r16|m16|mem}
-  ROW(2, 1, 1, 0, 6  , 117, 0  , 0  , 0  , 0  ), //      {r32, r32|m16|mem}
-  ROW(2, 0, 1, 0, 8  , 117, 0  , 0  , 0  , 0  ), //      {r64, r32|m16|mem}
+  ROW(2, 1, 1, 0, 6  , 118, 0  , 0  , 0  , 0  ), //      {r32, r32|m16|mem}
+  ROW(2, 0, 1, 0, 8  , 118, 0  , 0  , 0  , 0  ), //      {r64, r32|m16|mem}
   ROW(2, 1, 1, 0, 4  , 9  , 0  , 0  , 0  , 0  ), // #289 {r16, r8lo|r8hi|m8}
-  ROW(2, 1, 1, 0, 6  , 118, 0  , 0  , 0  , 0  ), //      {r32, r8lo|r8hi|m8|r16|m16}
-  ROW(2, 0, 1, 0, 8  , 118, 0  , 0  , 0  , 0  ), //      {r64, r8lo|r8hi|m8|r16|m16}
-  ROW(3, 1, 1, 0, 24 , 4  , 119, 0  , 0  , 0  ), // #292 {r16|m16|mem, r16, cl|i8|u8}
-  ROW(3, 1, 1, 0, 25 , 6  , 119, 0  , 0  , 0  ), //      {r32|m32|mem, r32, cl|i8|u8}
-  ROW(3, 0, 1, 0, 26 , 8  , 119, 0  , 0  , 0  ), //      {r64|m64|mem, r64, cl|i8|u8}
+  ROW(2, 1, 1, 0, 6  , 119, 0  , 0  , 0  , 0  ), //      {r32, r8lo|r8hi|m8|r16|m16}
+  ROW(2, 0, 1, 0, 8  , 119, 0  , 0  , 0  , 0  ), //      {r64, r8lo|r8hi|m8|r16|m16}
+  ROW(3, 1, 1, 0, 24 , 4  , 120, 0  , 0  , 0  ), // #292 {r16|m16|mem, r16, cl|i8|u8}
+  ROW(3, 1, 1, 0, 25 , 6  , 120, 0  , 0  , 0  ), //      {r32|m32|mem, r32, cl|i8|u8}
+  ROW(3, 0, 1, 0, 26 , 8  , 120, 0  , 0  , 0  ), //      {r64|m64|mem, r64, cl|i8|u8}
   ROW(3, 1, 1, 0, 55 , 55 , 56 , 0  , 0  , 0  ), // #295 {xmm, xmm, xmm|m128|mem}
   ROW(3, 1, 1, 0, 57 , 57 , 58 , 0  , 0  , 0  ), // #296 {ymm, ymm, ymm|m256|mem}
   ROW(3, 1, 1, 0, 61 , 61 , 62 , 0  , 0  , 0  ), //      {zmm, zmm, zmm|m512|mem}
   ROW(4, 1, 1, 0, 55 , 55 , 56 , 10 , 0  , 0  ), // #298 {xmm, xmm, xmm|m128|mem, i8|u8}
   ROW(4, 1, 1, 0, 57 , 57 , 58 , 10 , 0  , 0  ), // #299 {ymm, ymm, ymm|m256|mem, i8|u8}
   ROW(4, 1, 1, 0, 61 , 61 , 62 , 10 , 0  , 0  ), //      {zmm, zmm, zmm|m512|mem, i8|u8}
-  ROW(4, 1, 1, 0, 120, 55 , 56 , 10 , 0  , 0  ), // #301 {xmm|k, xmm, xmm|m128|mem, i8|u8}
-  ROW(4, 1, 1, 0, 121, 57 , 58 , 10 , 0  , 0  ), //      {ymm|k, ymm, ymm|m256|mem, i8|u8}
+  ROW(4, 1, 1, 0, 121, 55 , 56 , 10 , 0  , 0  ), // #301 {xmm|k, xmm, xmm|m128|mem, i8|u8}
+  ROW(4, 1, 1, 0, 122, 57 , 58 , 10 , 0  , 0  ), //      {ymm|k, ymm, ymm|m256|mem, i8|u8}
   ROW(4, 1, 1, 0, 92 , 61 , 62 , 10 , 0  , 0  ), //      {k, zmm, zmm|m512|mem, i8|u8}
   ROW(4, 1, 1, 0, 92 , 55 , 56 , 10 , 0  , 0  ), // #304 {k, xmm, xmm|m128|mem, i8|u8}
   ROW(4, 1, 1, 0, 92 , 57 , 58 , 10 , 0  , 0  ), //      {k, ymm, ymm|m256|mem, i8|u8}
@@ -5020,14 +5020,14 @@ const InstDB::InstSignature InstDB::_inst_signature_table[] = {
   ROW(2, 1, 1, 0, 55 , 70 , 0  , 0  , 0  , 0  ), // #310 {xmm, xmm|m64|mem}
   ROW(2, 1, 1, 0, 57 , 56 , 0  , 0  , 0  , 0  ), //      {ymm, xmm|m128|mem}
   ROW(2, 1, 1, 0, 61 , 58 , 0  , 0  , 0  , 0  ), //      {zmm, ymm|m256|mem}
-  ROW(2, 1, 1, 0, 55 , 122, 0  , 0  , 0  , 0  ), // #313 {xmm, xmm|m32|mem}
+  ROW(2, 1, 1, 0, 55 , 123, 0  , 0  , 0  , 0  ), // #313 {xmm, xmm|m32|mem}
   ROW(2, 1, 1, 0, 57 , 70 , 0  , 0  , 0  , 0  ), //      {ymm, xmm|m64|mem}
   ROW(2, 1, 1, 0, 61 , 56 , 0  , 0  , 0  , 0  ), //      {zmm, xmm|m128|mem}
   ROW(3, 1, 1, 0, 70 , 55 , 10 , 0  , 0  , 0  ), // #316 {xmm|m64|mem, xmm, i8|u8}
   ROW(3, 1, 1, 0, 56 , 57 , 10 , 0  , 0  , 0  ), // #317 {xmm|m128|mem, ymm, i8|u8}
   ROW(3, 1, 1, 0, 58 , 61 , 10 , 0  , 0  , 0  ), // #318 {ymm|m256|mem, zmm, i8|u8}
-  ROW(3, 1, 1, 0, 55 , 123, 55 , 0  , 0  , 0  ), // #319 {xmm, vm64x|vm64y, xmm}
-  ROW(2, 1, 1, 0, 55 , 123, 0  , 0  , 0  , 0  ), //      {xmm, vm64x|vm64y}
+  ROW(3, 1, 1, 0, 55 , 124, 55 , 0  , 0  , 0  ), // #319 {xmm, vm64x|vm64y, xmm}
+  ROW(2, 1, 1, 0, 55 , 124, 0  , 0  , 0  , 0  ), //      {xmm, vm64x|vm64y}
   ROW(2, 1, 1, 0, 57 , 82 , 0  , 0  , 0  , 0  ), //      {ymm, vm64z}
   ROW(3, 1, 1, 0, 55 , 56 , 10 , 0  , 0  , 0  ), // #322 {xmm, xmm|m128|mem, i8|u8}
   ROW(3, 1, 1, 0, 57 , 58 , 10 , 0  , 0  , 0  ), //      {ymm, ymm|m256|mem, i8|u8}
@@ -5038,20 +5038,20 @@ const InstDB::InstSignature InstDB::_inst_signature_table[] = {
   ROW(4, 1, 1, 0, 92 , 92 , 55 , 56 , 0  , 0  ), // #328 {k, k, xmm, xmm|m128|mem}
   ROW(4, 1, 1, 0, 92 , 92 , 57 , 58 , 0  , 0  ), //      {k, k, ymm, ymm|m256|mem}
   ROW(4, 1, 1, 0, 92 , 92 , 61 , 62 , 0  , 0  ), //      {k, k, zmm, zmm|m512|mem}
-  ROW(3, 1, 1, 0, 120, 55 , 56 , 0  , 0  , 0  ), // #331 {xmm|k, xmm, xmm|m128|mem}
-  ROW(3, 1, 1, 0, 121, 57 , 58 , 0  , 0  , 0  ), //      {ymm|k, ymm, ymm|m256|mem}
+  ROW(3, 1, 1, 0, 121, 55 , 56 , 0  , 0  , 0  ), // #331 {xmm|k, xmm, xmm|m128|mem}
+  ROW(3, 1, 1, 0, 122, 57 , 58 , 0  , 0  , 0  ), //      {ymm|k, ymm, ymm|m256|mem}
   ROW(3, 1, 1, 0, 92 , 61 , 62 , 0  , 0  , 0  ), //      {k, zmm, zmm|m512|mem}
-  ROW(2, 1, 1, 0, 122, 55 , 0  , 0  , 0  , 0  ), // #334 {xmm|m32|mem, xmm}
+  ROW(2, 1, 1, 0, 123, 55 , 0  , 0  , 0  , 0  ), // #334 {xmm|m32|mem, xmm}
   ROW(2, 1, 1, 0, 70 , 57 , 0  , 0  , 0  , 0  ), //      {xmm|m64|mem, ymm}
   ROW(2, 1, 1, 0, 56 , 61 , 0  , 0  , 0  , 0  ), //      {xmm|m128|mem, zmm}
   ROW(2, 1, 1, 0, 70 , 55 , 0  , 0  , 0  , 0  ), // #337 {xmm|m64|mem, xmm}
   ROW(2, 1, 1, 0, 56 , 57 , 0  , 0  , 0  , 0  ), //      {xmm|m128|mem, ymm}
   ROW(2, 1, 1, 0, 58 , 61 , 0  , 0  , 0  , 0  ), //      {ymm|m256|mem, zmm}
-  ROW(2, 1, 1, 0, 124, 55 , 0  , 0  , 0  , 0  ), // #340 {xmm|m16|mem, xmm}
-  ROW(2, 1, 1, 0, 122, 57 , 0  , 0  , 0  , 0  ), //      {xmm|m32|mem, ymm}
+  ROW(2, 1, 1, 0, 125, 55 , 0  , 0  , 0  , 0  ), // #340 {xmm|m16|mem, xmm}
+  ROW(2, 1, 1, 0, 123, 57 , 0  , 0  , 0  , 0  ), //      {xmm|m32|mem, ymm}
   ROW(2, 1, 1, 0, 70 , 61 , 0  , 0  , 0  , 0  ), //      {xmm|m64|mem, zmm}
-  ROW(2, 1, 1, 0, 55 , 124, 0  , 0  , 0  , 0  ), // #343 {xmm, xmm|m16|mem}
-  ROW(2, 1, 1, 0, 57 , 122, 0  , 0  , 0  , 0  ), //      {ymm, xmm|m32|mem}
+  ROW(2, 1, 1, 0, 55 , 125, 0  , 0  , 0  , 0  ), // #343 {xmm, xmm|m16|mem}
+  ROW(2, 1, 1, 0, 57 , 123, 0  , 0  , 0  , 0  ), //      {ymm, xmm|m32|mem}
   ROW(2, 1, 1, 0, 61 , 70 , 0  , 0  , 0  , 0  ), //      {zmm, xmm|m64|mem}
   ROW(2, 1, 1, 0, 77 , 55 , 0  , 0  , 0  , 0  ), // #346 {vm32x, xmm}
   ROW(2, 1, 1, 0, 78 , 57 , 0  , 0  , 0  , 0  ), //      {vm32y, ymm}
@@ -5066,10 +5066,10 @@ const InstDB::InstSignature InstDB::_inst_signature_table[] = {
   ROW(3, 0, 1, 0, 8  , 8  , 26 , 0  , 0  , 0  ), //      {r64, r64, r64|m64|mem}
   ROW(3, 1, 1, 0, 6  , 25 , 6  , 0  , 0  , 0  ), // #357 {r32, r32|m32|mem, r32}
   ROW(3, 0, 1, 0, 8  , 26 , 8  , 0  , 0  , 0  ), //      {r64, r64|m64|mem, r64}
-  ROW(2, 1, 0, 0, 125, 25 , 0  , 0  , 0  , 0  ), // #359 {bnd, r32|m32|mem}
-  ROW(2, 0, 1, 0, 125, 26 , 0  , 0  , 0  , 0  ), //      {bnd, r64|m64|mem}
-  ROW(2, 1, 1, 0, 125, 126, 0  , 0  , 0  , 0  ), // #361 {bnd, bnd|mem}
-  ROW(2, 1, 1, 0, 127, 125, 0  , 0  , 0  , 0  ), //      {mem, bnd}
+  ROW(2, 1, 0, 0, 126, 25 , 0  , 0  , 0  , 0  ), // #359 {bnd, r32|m32|mem}
+  ROW(2, 0, 1, 0, 126, 26 , 0  , 0  , 0  , 0  ), //      {bnd, r64|m64|mem}
+  ROW(2, 1, 1, 0, 126, 127, 0  , 0  , 0  , 0  ), // #361 {bnd, bnd|mem}
+  ROW(2, 1, 1, 0, 128, 126, 0  , 0  , 0  , 0  ), //      {mem, bnd}
   ROW(2, 1, 0, 0, 4  , 30 , 0  , 0  , 0  , 0  ), // #363 {r16, m32|mem}
   ROW(2, 1, 0, 0, 6  , 31 , 0  , 0  , 0  , 0  ), //      {r32, m64|mem}
   ROW(1, 1, 1, 0, 106, 0  , 0  , 0  , 0  , 0  ), // #365 {r16|r32}
@@ -5077,43 +5077,43 @@ const InstDB::InstSignature InstDB::_inst_signature_table[] = {
   ROW(3, 1, 1, 0, 30 , 6  , 6  , 0  , 0  , 0  ), // #367 {m32|mem, r32, r32}
   ROW(3, 0, 1, 0, 31 , 8  , 8  , 0  , 0  , 0  ), //      {m64|mem, r64, r64}
   ROW(2, 1, 1, 0, 6  , 107, 0  , 0  , 0  , 0  ), // #369 {r32, r8lo|r8hi|m8|r16|m16|r32|m32}
-  ROW(2, 0, 1, 0, 8  , 128, 0  , 0  , 0  , 0  ), //      {r64, r8lo|r8hi|m8|r64|m64}
+  ROW(2, 0, 1, 0, 8  , 129, 0  , 0  , 0  , 0  ), //      {r64, r8lo|r8hi|m8|r64|m64}
   ROW(2, 1, 1, 0, 6  , 70 , 0  , 0  , 0  , 0  ), // #371 {r32, xmm|m64|mem}
   ROW(2, 0, 1, 0, 8  , 70 , 0  , 0  , 0  , 0  ), //      {r64, xmm|m64|mem}
   ROW(2, 1, 1, 0, 55 , 25 , 0  , 0  , 0  , 0  ), // #373 {xmm, r32|m32|mem}
   ROW(2, 0, 1, 0, 55 , 26 , 0  , 0  , 0  , 0  ), //      {xmm, r64|m64|mem}
-  ROW(2, 1, 1, 0, 6  , 122, 0  , 0  , 0  , 0  ), // #375 {r32, xmm|m32|mem}
-  ROW(2, 0, 1, 0, 8  , 122, 0  , 0  , 0  , 0  ), //      {r64, xmm|m32|mem}
-  ROW(2, 1, 0, 0, 129, 63 , 0  , 0  , 0  , 0  ), // #377 {es:[mem|m512|memBase], m512|mem}
-  ROW(2, 0, 1, 0, 129, 63 , 0  , 0  , 0  , 0  ), //      {es:[mem|m512|memBase], m512|mem}
+  ROW(2, 1, 1, 0, 6  , 123, 0  , 0  , 0  , 0  ), // #375 {r32, xmm|m32|mem}
+  ROW(2, 0, 1, 0, 8  , 123, 0  , 0  , 0  , 0  ), //      {r64, xmm|m32|mem}
+  ROW(2, 1, 0, 0, 130, 63 , 0  , 0  , 0  , 0  ), // #377 {es:[mem|m512|memBase], m512|mem}
+  ROW(2, 0, 1, 0, 130, 63 , 0  , 0  , 0  , 0  ), //      {es:[mem|m512|memBase], m512|mem}
   ROW(3, 1, 1, 0, 55 , 10 , 10 , 0  , 0  , 0  ), // #379 {xmm, i8|u8, i8|u8}
   ROW(2, 1, 1, 0, 55 , 55 , 0  , 0  , 0  , 0  ), // #380 {xmm, xmm}
   ROW(0, 1, 1, 0, 0  , 0  , 0  , 0  , 0  , 0  ), // #381 {}
   ROW(1, 1, 1, 0, 110, 0  , 0  , 0  , 0  , 0  ), // #382 {st}
   ROW(0, 1, 1, 0, 0  , 0  , 0  , 0  , 0  , 0  ), // #383 {}
-  ROW(1, 1, 1, 0, 130, 0  , 0  , 0  , 0  , 0  ), // #384 {m32|m64|st}
+  ROW(1, 1, 1, 0, 131, 0  , 0  , 0  , 0  , 0  ), // #384 {m32|m64|st}
   ROW(2, 1, 1, 0, 55 , 55 , 0  , 0  , 0  , 0  ), // #385 {xmm, xmm}
   ROW(4, 1, 1, 0, 55 , 55 , 10 , 10 , 0  , 0  ), //      {xmm, xmm, i8|u8, i8|u8}
   ROW(2, 1, 0, 0, 6  , 59 , 0  , 0  , 0  , 0  ), // #387 {r32, m128|mem}
   ROW(2, 0, 1, 0, 8  , 59 , 0  , 0  , 0  , 0  ), //      {r64, m128|mem}
-  ROW(2, 1, 0, 2, 45 , 131, 0  , 0  , 0  , 0  ), // #389 {<eax>, <ecx>}
-  ROW(2, 0, 1, 2, 132, 131, 0  , 0  , 0  , 0  ), //      {<eax|rax>, <ecx>}
-  ROW(3, 1, 0, 3, 45 , 44 , 131, 0  , 0  , 0  ), // #391 {<eax>, <edx>, <ecx>}
-  ROW(3, 0, 1, 3, 132, 44 , 131, 0  , 0  , 0  ), //      {<eax|rax>, <edx>, <ecx>}
+  ROW(2, 1, 0, 2, 45 , 132, 0  , 0  , 0  , 0  ), // #389 {<eax>, <ecx>}
+  ROW(2, 0, 1, 2, 133, 132, 0  , 0  , 0  , 0  ), //      {<eax|rax>, <ecx>}
+  ROW(3, 1, 0, 3, 45 , 44 , 132, 0  , 0  , 0  ), // #391 {<eax>, <edx>, <ecx>}
+  ROW(3, 0, 1, 3, 133, 44 , 132, 0  , 0  , 0  ), //      {<eax|rax>, <edx>, <ecx>}
   ROW(1, 1, 1, 0, 111, 0  , 0  , 0  , 0  , 0  ), // #393 {rel8|rel32}
   ROW(1, 1, 0, 0, 105, 0  , 0  , 0  , 0  , 0  ), //      {rel16}
-  ROW(2, 1, 0, 1, 133, 134, 0  , 0  , 0  , 0  ), // #395 {<cx|ecx>, rel8}
-  ROW(2, 0, 1, 1, 135, 134, 0  , 0  , 0  , 0  ), //      {<ecx|rcx>, rel8}
-  ROW(2, 1, 1, 0, 92 , 136, 0  , 0  , 0  , 0  ), // #397 {k, k|m8|mem|r32}
-  ROW(2, 1, 1, 0, 137, 92 , 0  , 0  , 0  , 0  ), //      {m8|mem|r32, k}
-  ROW(2, 1, 1, 0, 92 , 138, 0  , 0  , 0  , 0  ), // #399 {k, k|m32|mem|r32}
+  ROW(2, 1, 0, 1, 134, 135, 0  , 0  , 0  , 0  ), // #395 {<cx|ecx>, rel8}
+  ROW(2, 0, 1, 1, 136, 135, 0  , 0  , 0  , 0  ), //      {<ecx|rcx>, rel8}
+  ROW(2, 1, 1, 0, 92 , 137, 0  , 0  , 0  , 0  ), // #397 {k, k|m8|mem|r32}
+  ROW(2, 1, 1, 0, 138, 92 , 0  , 0  , 0  , 0  ), //      {m8|mem|r32, k}
+  ROW(2, 1, 1, 0, 92 , 139, 0  , 0  , 0  , 0  ), // #399 {k, k|m32|mem|r32}
   ROW(2, 1, 1, 0, 25 , 92 , 0  , 0  , 0  , 0  ), //      {m32|mem|r32, k}
-  ROW(2, 1, 1, 0, 92 , 139, 0  , 0  , 0  , 0  ), // #401 {k, k|m16|mem|r32}
-  ROW(2, 1, 1, 0, 117, 92 , 0  , 0  , 0  , 0  ), //      {m16|mem|r32, k}
+  ROW(2, 1, 1, 0, 92 , 140, 0  , 0  , 0  , 0  ), // #401 {k, k|m16|mem|r32}
+  ROW(2, 1, 1, 0, 118, 92 , 0  , 0  , 0  , 0  ), //      {m16|mem|r32, k}
   ROW(2, 1, 0, 0, 4  , 30 , 0  , 0  , 0  , 0  ), // #403 {r16, m32|mem}
-  ROW(2, 1, 0, 0, 6  , 116, 0  , 0  , 0  , 0  ), //      {r32, m48|mem}
-  ROW(2, 1, 1, 0, 106, 140, 0  , 0  , 0  , 0  ), // #405 {r16|r32, mem|m8|m16|m32|m48|m64|m80|m128|m256|m512|m1024}
-  ROW(2, 0, 1, 0, 8  , 140, 0  , 0  , 0  , 0  ), //      {r64, mem|m8|m16|m32|m48|m64|m80|m128|m256|m512|m1024}
+  ROW(2, 1, 0, 0, 6  , 117, 0  , 0  , 0  , 0  ), //      {r32, m48|mem}
+  ROW(2, 1, 1, 0, 106, 141, 0  , 0  , 0  , 0  ), // #405 {r16|r32, mem|m8|m16|m32|m48|m64|m80|m128|m256|m512|m1024}
+  ROW(2, 0, 1, 0, 8  , 141, 0  , 0  , 0  , 0  ), //      {r64, mem|m8|m16|m32|m48|m64|m80|m128|m256|m512|m1024}
   ROW(1, 1, 1, 0, 6  , 0  , 0  , 0  , 0  , 0  ), // #407 {r32}
   ROW(1, 0, 1, 0, 8  , 0  , 0  , 0  , 0  , 0  ), //      {r64}
   ROW(3, 1, 1, 0, 6  , 25 , 14 , 0  , 0  , 0  ), // #409 {r32, r32|m32|mem, i32|u32}
@@ -5122,14 +5122,14 @@ const InstDB::InstSignature InstDB::_inst_signature_table[] = {
   ROW(2, 1, 1, 0, 59 , 55 , 0  , 0  , 0  , 0  ), //      {m128|mem, xmm}
   ROW(2, 1, 1, 0, 69 , 25 , 0  , 0  , 0  , 0  ), // #413 {mm|xmm, r32|m32|mem}
   ROW(2, 1, 1, 0, 25 , 69 , 0  , 0  , 0  , 0  ), //      {r32|m32|mem, mm|xmm}
-  ROW(2, 1, 1, 0, 129, 63 , 0  , 0  , 0  , 0  ), // #415 {es:[mem|m512|memBase], m512|mem}
-  ROW(2, 1, 1, 0, 129, 63 , 0  , 0  , 0  , 0  ), //      {es:[mem|m512|memBase], m512|mem}
+  ROW(2, 1, 1, 0, 130, 63 , 0  , 0  , 0  , 0  ), // #415 {es:[mem|m512|memBase], m512|mem}
+  ROW(2, 1, 1, 0, 130, 63 , 0  , 0  , 0  , 0  ), //      {es:[mem|m512|memBase], m512|mem}
   ROW(2, 1, 1, 0, 55 , 70 , 0  , 0  , 0  , 0  ), // #417 {xmm, xmm|m64|mem}
   ROW(2, 1, 1, 0, 31 , 55 , 0  , 0  , 0  , 0  ), //      {m64|mem, xmm}
-  ROW(2, 1, 1, 0, 55 , 122, 0  , 0  , 0  , 0  ), // #419 {xmm, xmm|m32|mem}
+  ROW(2, 1, 1, 0, 55 , 123, 0  , 0  , 0  , 0  ), // #419 {xmm, xmm|m32|mem}
   ROW(2, 1, 1, 0, 30 , 55 , 0  , 0  , 0  , 0  ), //      {m32|mem, xmm}
   ROW(2, 0, 1, 0, 4  , 24 , 0  , 0  , 0  , 0  ), // #421 {r16, r16|m16|mem}
-  ROW(2, 0, 1, 0, 141, 25 , 0  , 0  , 0  , 0  ), //      {r32|r64, r32|m32|mem}
+  ROW(2, 0, 1, 0, 142, 25 , 0  , 0  , 0  , 0  ), //      {r32|r64, r32|m32|mem}
   ROW(4, 1, 1, 1, 6  , 6  , 25 , 44 , 0  , 0  ), // #423 {r32, r32, r32|m32|mem, <edx>}
   ROW(4, 0, 1, 1, 8  , 8  , 26 , 46 , 0  , 0  ), //      {r64, r64, r64|m64|mem, <rdx>}
   ROW(2, 1, 1, 0, 67 , 68 , 0  , 0  , 0  , 0  ), // #425 {mm, mm|m64|mem}
@@ -5138,20 +5138,20 @@ const InstDB::InstSignature InstDB::_inst_signature_table[] = {
   ROW(3, 1, 1, 0, 55 , 56 , 10 , 0  , 0  , 0  ), //      {xmm, xmm|m128|mem, i8|u8}
   ROW(3, 1, 1, 0, 6  , 69 , 10 , 0  , 0  , 0  ), // #429 {r32, mm|xmm, i8|u8}
   ROW(3, 1, 1, 0, 21 , 55 , 10 , 0  , 0  , 0  ), //      {m16|mem, xmm, i8|u8}
-  ROW(2, 1, 1, 0, 67 , 142, 0  , 0  , 0  , 0  ), // #431 {mm, mm|m64|mem|i8|u8}
+  ROW(2, 1, 1, 0, 67 , 143, 0  , 0  , 0  , 0  ), // #431 {mm, mm|m64|mem|i8|u8}
   ROW(2, 1, 1, 0, 55 , 64 , 0  , 0  , 0  , 0  ), //      {xmm, xmm|m128|mem|i8|u8}
   ROW(1, 1, 1, 0, 25 , 0  , 0  , 0  , 0  , 0  ), // #433 {r32|m32|mem}
   ROW(1, 0, 1, 0, 26 , 0  , 0  , 0  , 0  , 0  ), //      {r64|m64|mem}
-  ROW(2, 1, 1, 0, 67 , 143, 0  , 0  , 0  , 0  ), // #435 {mm, mm|m32|mem}
+  ROW(2, 1, 1, 0, 67 , 144, 0  , 0  , 0  , 0  ), // #435 {mm, mm|m32|mem}
   ROW(2, 1, 1, 0, 55 , 56 , 0  , 0  , 0  , 0  ), //      {xmm, xmm|m128|mem}
-  ROW(2, 1, 1, 0, 107, 119, 0  , 0  , 0  , 0  ), // #437 {r8lo|r8hi|m8|r16|m16|r32|m32, cl|i8|u8}
-  ROW(2, 0, 1, 0, 15 , 119, 0  , 0  , 0  , 0  ), //      {r64|m64, cl|i8|u8}
-  ROW(3, 1, 1, 3, 44 , 45 , 131, 0  , 0  , 0  ), // #439 {<edx>, <eax>, <ecx>}
+  ROW(2, 1, 1, 0, 107, 120, 0  , 0  , 0  , 0  ), // #437 {r8lo|r8hi|m8|r16|m16|r32|m32, cl|i8|u8}
+  ROW(2, 0, 1, 0, 15 , 120, 0  , 0  , 0  , 0  ), //      {r64|m64, cl|i8|u8}
+  ROW(3, 1, 1, 3, 44 , 45 , 132, 0  , 0  , 0  ), // #439 {<edx>, <eax>, <ecx>}
   ROW(2, 0, 1, 0, 8  , 14 , 0  , 0  , 0  , 0  ), //      {r64, i32|u32}
   ROW(1, 1, 0, 0, 6  , 0  , 0  , 0  , 0  , 0  ), // #441 {r32}
   ROW(1, 0, 1, 0, 8  , 0  , 0  , 0  , 0  , 0  ), //      {r64}
   ROW(0, 1, 1, 0, 0  , 0  , 0  , 0  , 0  , 0  ), // #443 {}
-  ROW(1, 1, 1, 0, 144, 0  , 0  , 0  , 0  , 0  ), //      {u16}
+  ROW(1, 1, 1, 0, 113, 0  , 0  , 0  , 0  , 0  ), //      {u16}
   ROW(3, 1, 1, 0, 6  , 25 , 10 , 0  , 0  , 0  ), // #445 {r32, r32|m32|mem, i8|u8}
   ROW(3, 0, 1, 0, 8  , 26 , 10 , 0  , 0  , 0  ), //      {r64, r64|m64|mem, i8|u8}
   ROW(1, 1, 1, 0, 145, 0  , 0  , 0  , 0  , 0  ), // #447 {r16|m16|mem|r32}
@@ -5162,15 +5162,15 @@ const InstDB::InstSignature InstDB::_inst_signature_table[] = {
   ROW(4, 1, 1, 0, 57 , 57 , 58 , 57 , 0  , 0  ), //      {ymm, ymm, ymm|m256|mem, ymm}
   ROW(2, 1, 1, 0, 55 , 148, 0  , 0  , 0  , 0  ), // #453 {xmm, xmm|m128|ymm|m256}
   ROW(2, 1, 1, 0, 57 , 62 , 0  , 0  , 0  , 0  ), //      {ymm, zmm|m512|mem}
-  ROW(2, 1, 1, 0, 6  , 124, 0  , 0  , 0  , 0  ), // #455 {r32, xmm|m16|mem}
-  ROW(2, 0, 1, 0, 8  , 124, 0  , 0  , 0  , 0  ), //      {r64, xmm|m16|mem}
+  ROW(2, 1, 1, 0, 6  , 125, 0  , 0  , 0  , 0  ), // #455 {r32, xmm|m16|mem}
+  ROW(2, 0, 1, 0, 8  , 125, 0  , 0  , 0  , 0  ), //      {r64, xmm|m16|mem}
   ROW(3, 1, 1, 0, 55 , 55 , 25 , 0  , 0  , 0  ), // #457 {xmm, xmm, r32|m32|mem}
   ROW(3, 0, 1, 0, 55 , 55 , 26 , 0  , 0  , 0  ), //      {xmm, xmm, r64|m64|mem}
   ROW(3, 1, 1, 0, 55 , 55 , 13 , 0  , 0  , 0  ), // #459 {xmm, xmm, r32|m32}
   ROW(3, 0, 1, 0, 55 , 55 , 15 , 0  , 0  , 0  ), //      {xmm, xmm, r64|m64}
   ROW(4, 1, 1, 0, 55 , 55 , 55 , 70 , 0  , 0  ), // #461 {xmm, xmm, xmm, xmm|m64|mem}
   ROW(4, 1, 1, 0, 55 , 55 , 31 , 55 , 0  , 0  ), //      {xmm, xmm, m64|mem, xmm}
-  ROW(4, 1, 1, 0, 55 , 55 , 55 , 122, 0  , 0  ), // #463 {xmm, xmm, xmm, xmm|m32|mem}
+  ROW(4, 1, 1, 0, 55 , 55 , 55 , 123, 0  , 0  ), // #463 {xmm, xmm, xmm, xmm|m32|mem}
   ROW(4, 1, 1, 0, 55 , 55 , 30 , 55 , 0  , 0  ), //      {xmm, xmm, m32|mem, xmm}
   ROW(4, 1, 1, 0, 57 , 57 , 56 , 10 , 0  , 0  ), // #465 {ymm, ymm, xmm|m128|mem, i8|u8}
   ROW(4, 1, 1, 0, 61 , 61 , 56 , 10 , 0  , 0  ), //      {zmm, zmm, xmm|m128|mem, i8|u8}
@@ -5178,8 +5178,8 @@ const InstDB::InstSignature InstDB::_inst_signature_table[] = {
   ROW(1, 0, 1, 1, 47 , 0  , 0  , 0  , 0  , 0  ), // #468 {<rax>}
   ROW(2, 1, 1, 0, 25 , 55 , 0  , 0  , 0  , 0  ), // #469 {r32|m32|mem, xmm}
   ROW(2, 1, 1, 0, 55 , 25 , 0  , 0  , 0  , 0  ), //      {xmm, r32|m32|mem}
-  ROW(2, 1, 1, 0, 117, 55 , 0  , 0  , 0  , 0  ), // #471 {r32|m16|mem, xmm}
-  ROW(2, 1, 1, 0, 55 , 117, 0  , 0  , 0  , 0  ), //      {xmm, r32|m16|mem}
+  ROW(2, 1, 1, 0, 118, 55 , 0  , 0  , 0  , 0  ), // #471 {r32|m16|mem, xmm}
+  ROW(2, 1, 1, 0, 55 , 118, 0  , 0  , 0  , 0  ), //      {xmm, r32|m16|mem}
   ROW(2, 1, 0, 0, 25 , 6  , 0  , 0  , 0  , 0  ), // #473 {r32|m32|mem, r32}
   ROW(2, 0, 1, 0, 26 , 8  , 0  , 0  , 0  , 0  ), //      {r64|m64|mem, r64}
   ROW(2, 1, 0, 0, 6  , 25 , 0  , 0  , 0  , 0  ), // #475 {r32, r32|m32|mem}
@@ -5190,7 +5190,7 @@ const InstDB::InstSignature InstDB::_inst_signature_table[] = {
   ROW(3, 1, 1, 0, 55 , 59 , 150, 0  , 0  , 0  ), //      {xmm, m128|mem, i8|u8|xmm}
   ROW(2, 1, 1, 0, 77 , 102, 0  , 0  , 0  , 0  ), // #481 {vm32x, xmm|ymm}
   ROW(2, 1, 1, 0, 78 , 61 , 0  , 0  , 0  , 0  ), //      {vm32y, zmm}
-  ROW(2, 1, 1, 0, 123, 55 , 0  , 0  , 0  , 0  ), // #483 {vm64x|vm64y, xmm}
+  ROW(2, 1, 1, 0, 124, 55 , 0  , 0  , 0  , 0  ), // #483 {vm64x|vm64y, xmm}
   ROW(2, 1, 1, 0, 82 , 57 , 0  , 0  , 0  , 0  ), //      {vm64z, ymm}
   ROW(3, 1, 1, 0, 55 , 55 , 56 , 0  , 0  , 0  ), // #485 {xmm, xmm, xmm|m128|mem}
   ROW(3, 1, 1, 0, 55 , 59 , 55 , 0  , 0  , 0  ), //      {xmm, m128|mem, xmm}
@@ -5198,20 +5198,20 @@ const InstDB::InstSignature InstDB::_inst_signature_table[] = {
   ROW(2, 1, 0, 1, 42 , 10 , 0  , 0  , 0  , 0  ), // #488 {<ax>, i8|u8}
   ROW(2, 1, 0, 0, 24 , 4  , 0  , 0  , 0  , 0  ), // #489 {r16|m16|mem, r16}
   ROW(3, 1, 1, 1, 55 , 56 , 151, 0  , 0  , 0  ), // #490 {xmm, xmm|m128|mem, <xmm0>}
-  ROW(2, 1, 1, 0, 125, 152, 0  , 0  , 0  , 0  ), // #491 {bnd, mib}
-  ROW(2, 1, 1, 0, 125, 127, 0  , 0  , 0  , 0  ), // #492 {bnd, mem}
-  ROW(2, 1, 1, 0, 152, 125, 0  , 0  , 0  , 0  ), // #493 {mib, bnd}
+  ROW(2, 1, 1, 0, 126, 152, 0  , 0  , 0  , 0  ), // #491 {bnd, mib}
+  ROW(2, 1, 1, 0, 126, 128, 0  , 0  , 0  , 0  ), // #492 {bnd, mem}
+  ROW(2, 1, 1, 0, 152, 126, 0  , 0  , 0  , 0  ), // #493 {mib, bnd}
   ROW(1, 1, 1, 1, 42 , 0  , 0  , 0  , 0  , 0  ), // #494 {<ax>}
   ROW(2, 1, 1, 2, 44 , 45 , 0  , 0  , 0  , 0  ), // #495 {<edx>, <eax>}
-  ROW(1, 1, 1, 0, 127, 0  , 0  , 0  , 0  , 0  ), // #496 {mem}
+  ROW(1, 1, 1, 0, 128, 0  , 0  , 0  , 0  , 0  ), // #496 {mem}
   ROW(1, 1, 1, 0, 31 , 0  , 0  , 0  , 0  , 0  ), // #497 {m64|mem}
   ROW(0, 0, 1, 0, 0  , 0  , 0  , 0  , 0  , 0  ), // #498 {}
   ROW(1, 1, 1, 1, 153, 0  , 0  , 0  , 0  , 0  ), // #499 {<ds:[mem|m512|memBase|zax]>}
   ROW(3, 1, 1, 0, 55 , 70 , 10 , 0  , 0  , 0  ), // #500 {xmm, xmm|m64|mem, i8|u8}
-  ROW(3, 1, 1, 0, 55 , 122, 10 , 0  , 0  , 0  ), // #501 {xmm, xmm|m32|mem, i8|u8}
+  ROW(3, 1, 1, 0, 55 , 123, 10 , 0  , 0  , 0  ), // #501 {xmm, xmm|m32|mem, i8|u8}
   ROW(5, 0, 1, 4, 59 , 46 , 47 , 154, 155, 0  ), // #502 {m128|mem, <rdx>, <rax>, <rcx>, <rbx>}
-  ROW(5, 1, 1, 4, 31 , 44 , 45 , 131, 156, 0  ), // #503 {m64|mem, <edx>, <eax>, <ecx>, <ebx>}
-  ROW(4, 1, 1, 4, 45 , 156, 131, 44 , 0  , 0  ), // #504 {<eax>, <ebx>, <ecx>, <edx>}
+  ROW(5, 1, 1, 4, 31 , 44 , 45 , 132, 156, 0  ), // #503 {m64|mem, <edx>, <eax>, <ecx>, <ebx>}
+  ROW(4, 1, 1, 4, 45 , 156, 132, 44 , 0  , 0  ), // #504 {<eax>, <ebx>, <ecx>, <edx>}
   ROW(2, 0, 1, 2, 46 , 47 , 0  , 0  , 0  , 0  ), // #505 {<rdx>, <rax>}
   ROW(2, 1, 1, 0, 67 , 56 , 0  , 0  , 0  , 0  ), // #506 {mm, xmm|m128|mem}
   ROW(2, 1, 1, 0, 55 , 68 , 0  , 0  , 0  , 0  ), // #507 {xmm, mm|m64|mem}
@@ -5220,13 +5220,13 @@ const InstDB::InstSignature InstDB::_inst_signature_table[] = {
   ROW(1, 1, 1, 1, 45 , 0  , 0  , 0  , 0  , 0  ), // #510 {<eax>}
   ROW(2, 1, 1, 0, 12 , 10 , 0  , 0  , 0  , 0  ), // #511 {i16|u16, i8|u8}
   ROW(3, 1, 1, 0, 25 , 55 , 10 , 0  , 0  , 0  ), // #512 {r32|m32|mem, xmm, i8|u8}
-  ROW(1, 1, 1, 0, 115, 0  , 0  , 0  , 0  , 0  ), // #513 {m80|mem}
+  ROW(1, 1, 1, 0, 116, 0  , 0  , 0  , 0  , 0  ), // #513 {m80|mem}
   ROW(1, 1, 1, 0, 39 , 0  , 0  , 0  , 0  , 0  ), // #514 {m16|m32}
   ROW(1, 1, 1, 0, 157, 0  , 0  , 0  , 0  , 0  ), // #515 {m16|m32|m64}
   ROW(1, 1, 1, 0, 158, 0  , 0  , 0  , 0  , 0  ), // #516 {m32|m64|m80|st}
   ROW(1, 1, 1, 0, 21 , 0  , 0  , 0  , 0  , 0  ), // #517 {m16|mem}
   ROW(1, 1, 1, 0, 159, 0  , 0  , 0  , 0  , 0  ), // #518 {ax|m16|mem}
-  ROW(1, 0, 1, 0, 127, 0  , 0  , 0  , 0  , 0  ), // #519 {mem}
+  ROW(1, 0, 1, 0, 128, 0  , 0  , 0  , 0  , 0  ), // #519 {mem}
   ROW(2, 1, 1, 2, 45 , 156, 0  , 0  , 0  , 0  ), // #520 {<eax>, <ebx>}
   ROW(2, 1, 1, 1, 10 , 45 , 0  , 0  , 0  , 0  ), // #521 {i8|u8, <eax>}
   ROW(2, 1, 1, 0, 160, 161, 0  , 0  , 0  , 0  ), // #522 {al|ax|eax, i8|u8|dx}
@@ -5242,29 +5242,29 @@ const InstDB::InstSignature InstDB::_inst_signature_table[] = {
   ROW(1, 1, 1, 0, 24 , 0  , 0  , 0  , 0  , 0  ), // #532 {r16|m16|mem}
   ROW(3, 1, 1, 1, 55 , 55 , 165, 0  , 0  , 0  ), // #533 {xmm, xmm, <ds:[mem|m128|memBase|zdi]>}
   ROW(3, 1, 1, 1, 67 , 67 , 166, 0  , 0  , 0  ), // #534 {mm, mm, <ds:[mem|m64|memBase|zdi]>}
-  ROW(3, 1, 1, 3, 167, 131, 44 , 0  , 0  , 0  ), // #535 {<ds:[mem|memBase|zax]>, <ecx>, <edx>}
+  ROW(3, 1, 1, 3, 167, 132, 44 , 0  , 0  , 0  ), // #535 {<ds:[mem|memBase|zax]>, <ecx>, <edx>}
   ROW(2, 1, 1, 0, 67 , 55 , 0  , 0  , 0  , 0  ), // #536 {mm, xmm}
   ROW(2, 1, 1, 0, 6  , 55 , 0  , 0  , 0  , 0  ), // #537 {r32, xmm}
   ROW(2, 1, 1, 0, 31 , 67 , 0  , 0  , 0  , 0  ), // #538 {m64|mem, mm}
   ROW(2, 1, 1, 0, 55 , 67 , 0  , 0  , 0  , 0  ), // #539 {xmm, mm}
-  ROW(2, 1, 1, 2, 45 , 131, 0  , 0  , 0  , 0  ), // #540 {<eax>, <ecx>}
-  ROW(3, 1, 1, 3, 45 , 131, 156, 0  , 0  , 0  ), // #541 {<eax>, <ecx>, <ebx>}
+  ROW(2, 1, 1, 2, 45 , 132, 0  , 0  , 0  , 0  ), // #540 {<eax>, <ecx>}
+  ROW(3, 1, 1, 3, 45 , 132, 156, 0  , 0  , 0  ), // #541 {<eax>, <ecx>, <ebx>}
   ROW(2, 1, 1, 0, 161, 160, 0  , 0  , 0  , 0  ), // #542 {i8|u8|dx, al|ax|eax}
   ROW(2, 1, 1, 0, 163, 168, 0  , 0  , 0  , 0  ), // #543 {dx, ds:[memBase|zsi|m8|m16|m32]}
-  ROW(6, 1, 1, 3, 55 , 56 , 10 , 131, 45 , 44 ), // #544 {xmm, xmm|m128|mem, i8|u8, <ecx>, <eax>, <edx>}
+  ROW(6, 1, 1, 3, 55 , 56 , 10 , 132, 45 , 44 ), // #544 {xmm, xmm|m128|mem, i8|u8, <ecx>, <eax>, <edx>}
   ROW(6, 1, 1, 3, 55 , 56 , 10 , 151, 45 , 44 ), // #545 {xmm, xmm|m128|mem, i8|u8, <xmm0>, <eax>, <edx>}
-  ROW(4, 1, 1, 1, 55 , 56 , 10 , 131, 0  , 0  ), // #546 {xmm, xmm|m128|mem, i8|u8, <ecx>}
+  ROW(4, 1, 1, 1, 55 , 56 , 10 , 132, 0  , 0  ), // #546 {xmm, xmm|m128|mem, i8|u8, <ecx>}
   ROW(4, 1, 1, 1, 55 , 56 , 10 , 151, 0  , 0  ), // #547 {xmm, xmm|m128|mem, i8|u8, <xmm0>}
-  ROW(3, 1, 1, 0, 137, 55 , 10 , 0  , 0  , 0  ), // #548 {r32|m8|mem, xmm, i8|u8}
+  ROW(3, 1, 1, 0, 138, 55 , 10 , 0  , 0  , 0  ), // #548 {r32|m8|mem, xmm, i8|u8}
   ROW(3, 0, 1, 0, 26 , 55 , 10 , 0  , 0  , 0  ), // #549 {r64|m64|mem, xmm, i8|u8}
-  ROW(3, 1, 1, 0, 55 , 137, 10 , 0  , 0  , 0  ), // #550 {xmm, r32|m8|mem, i8|u8}
+  ROW(3, 1, 1, 0, 55 , 138, 10 , 0  , 0  , 0  ), // #550 {xmm, r32|m8|mem, i8|u8}
   ROW(3, 1, 1, 0, 55 , 25 , 10 , 0  , 0  , 0  ), // #551 {xmm, r32|m32|mem, i8|u8}
   ROW(3, 0, 1, 0, 55 , 26 , 10 , 0  , 0  , 0  ), // #552 {xmm, r64|m64|mem, i8|u8}
-  ROW(3, 1, 1, 0, 69 , 117, 10 , 0  , 0  , 0  ), // #553 {mm|xmm, r32|m16|mem, i8|u8}
+  ROW(3, 1, 1, 0, 69 , 118, 10 , 0  , 0  , 0  ), // #553 {mm|xmm, r32|m16|mem, i8|u8}
   ROW(2, 1, 1, 0, 6  , 69 , 0  , 0  , 0  , 0  ), // #554 {r32, mm|xmm}
   ROW(2, 1, 1, 0, 55 , 10 , 0  , 0  , 0  , 0  ), // #555 {xmm, i8|u8}
   ROW(1, 1, 1, 0, 12 , 0  , 0  , 0  , 0  , 0  ), // #556 {i16|u16}
-  ROW(1, 0, 1, 0, 141, 0  , 0  , 0  , 0  , 0  ), // #557 {r32|r64}
+  ROW(1, 0, 1, 0, 142, 0  , 0  , 0  , 0  , 0  ), // #557 {r32|r64}
   ROW(1, 1, 1, 0, 1  , 0  , 0  , 0  , 0  , 0  ), // #558 {r8lo|r8hi|m8|mem}
   ROW(3, 0, 1, 0, 169, 169, 169, 0  , 0  , 0  ), // #559 {tmm, tmm, tmm}
   ROW(2, 0, 1, 0, 169, 170, 0  , 0  , 0  , 0  ), // #560 {tmm, tmem}
@@ -5272,43 +5272,43 @@ const InstDB::InstSignature InstDB::_inst_signature_table[] = {
   ROW(1, 0, 1, 0, 169, 0  , 0  , 0  , 0  , 0  ), // #562 {tmm}
   ROW(3, 1, 1, 2, 6  , 44 , 45 , 0  , 0  , 0  ), // #563 {r32, <edx>, <eax>}
   ROW(3, 1, 1, 0, 55 , 55 , 70 , 0  , 0  , 0  ), // #564 {xmm, xmm, xmm|m64|mem}
-  ROW(3, 1, 1, 0, 55 , 55 , 124, 0  , 0  , 0  ), // #565 {xmm, xmm, xmm|m16|mem}
-  ROW(3, 1, 1, 0, 55 , 55 , 122, 0  , 0  , 0  ), // #566 {xmm, xmm, xmm|m32|mem}
+  ROW(3, 1, 1, 0, 55 , 55 , 125, 0  , 0  , 0  ), // #565 {xmm, xmm, xmm|m16|mem}
+  ROW(3, 1, 1, 0, 55 , 55 , 123, 0  , 0  , 0  ), // #566 {xmm, xmm, xmm|m32|mem}
   ROW(2, 1, 1, 0, 102, 21 , 0  , 0  , 0  , 0  ), // #567 {xmm|ymm, m16|mem}
   ROW(2, 1, 1, 0, 57 , 59 , 0  , 0  , 0  , 0  ), // #568 {ymm, m128|mem}
   ROW(2, 1, 1, 0, 171, 70 , 0  , 0  , 0  , 0  ), // #569 {ymm|zmm, xmm|m64|mem}
   ROW(2, 1, 1, 0, 171, 59 , 0  , 0  , 0  , 0  ), // #570 {ymm|zmm, m128|mem}
   ROW(2, 1, 1, 0, 61 , 60 , 0  , 0  , 0  , 0  ), // #571 {zmm, m256|mem}
-  ROW(2, 1, 1, 0, 149, 122, 0  , 0  , 0  , 0  ), // #572 {xmm|ymm|zmm, m32|mem|xmm}
-  ROW(4, 1, 1, 0, 120, 55 , 70 , 10 , 0  , 0  ), // #573 {xmm|k, xmm, xmm|m64|mem, i8|u8}
-  ROW(4, 1, 1, 0, 92 , 55 , 124, 10 , 0  , 0  ), // #574 {k, xmm, xmm|m16|mem, i8|u8}
-  ROW(4, 1, 1, 0, 120, 55 , 122, 10 , 0  , 0  ), // #575 {xmm|k, xmm, xmm|m32|mem, i8|u8}
+  ROW(2, 1, 1, 0, 149, 123, 0  , 0  , 0  , 0  ), // #572 {xmm|ymm|zmm, m32|mem|xmm}
+  ROW(4, 1, 1, 0, 121, 55 , 70 , 10 , 0  , 0  ), // #573 {xmm|k, xmm, xmm|m64|mem, i8|u8}
+  ROW(4, 1, 1, 0, 92 , 55 , 125, 10 , 0  , 0  ), // #574 {k, xmm, xmm|m16|mem, i8|u8}
+  ROW(4, 1, 1, 0, 121, 55 , 123, 10 , 0  , 0  ), // #575 {xmm|k, xmm, xmm|m32|mem, i8|u8}
   ROW(2, 1, 1, 0, 55 , 172, 0  , 0  , 0  , 0  ), // #576 {xmm, xmm|m128|ymm|m256|zmm|m512}
   ROW(3, 1, 1, 0, 56 , 171, 10 , 0  , 0  , 0  ), // #577 {xmm|m128|mem, ymm|zmm, i8|u8}
   ROW(4, 1, 1, 0, 55 , 55 , 70 , 10 , 0  , 0  ), // #578 {xmm, xmm, xmm|m64|mem, i8|u8}
-  ROW(4, 1, 1, 0, 55 , 55 , 122, 10 , 0  , 0  ), // #579 {xmm, xmm, xmm|m32|mem, i8|u8}
+  ROW(4, 1, 1, 0, 55 , 55 , 123, 10 , 0  , 0  ), // #579 {xmm, xmm, xmm|m32|mem, i8|u8}
   ROW(3, 1, 1, 0, 92 , 172, 10 , 0  , 0  , 0  ), // #580 {k, xmm|m128|ymm|m256|zmm|m512, i8|u8}
   ROW(3, 1, 1, 0, 92 , 70 , 10 , 0  , 0  , 0  ), // #581 {k, xmm|m64|mem, i8|u8}
-  ROW(3, 1, 1, 0, 92 , 124, 10 , 0  , 0  , 0  ), // #582 {k, xmm|m16|mem, i8|u8}
-  ROW(3, 1, 1, 0, 92 , 122, 10 , 0  , 0  , 0  ), // #583 {k, xmm|m32|mem, i8|u8}
-  ROW(4, 1, 1, 0, 55 , 55 , 124, 10 , 0  , 0  ), // #584 {xmm, xmm, xmm|m16|mem, i8|u8}
+  ROW(3, 1, 1, 0, 92 , 125, 10 , 0  , 0  , 0  ), // #582 {k, xmm|m16|mem, i8|u8}
+  ROW(3, 1, 1, 0, 92 , 123, 10 , 0  , 0  , 0  ), // #583 {k, xmm|m32|mem, i8|u8}
+  ROW(4, 1, 1, 0, 55 , 55 , 125, 10 , 0  , 0  ), // #584 {xmm, xmm, xmm|m16|mem, i8|u8}
   ROW(4, 1, 1, 0, 61 , 61 , 58 , 10 , 0  , 0  ), // #585 {zmm, zmm, ymm|m256|mem, i8|u8}
   ROW(2, 1, 1, 0, 6  , 102, 0  , 0  , 0  , 0  ), // #586 {r32, xmm|ymm}
   ROW(2, 1, 1, 0, 149, 173, 0  , 0  , 0  , 0  ), // #587 {xmm|ymm|zmm, xmm|m8|mem|r32}
   ROW(2, 1, 1, 0, 149, 174, 0  , 0  , 0  , 0  ), // #588 {xmm|ymm|zmm, xmm|m32|mem|r32}
   ROW(2, 1, 1, 0, 149, 92 , 0  , 0  , 0  , 0  ), // #589 {xmm|ymm|zmm, k}
   ROW(2, 1, 1, 0, 149, 175, 0  , 0  , 0  , 0  ), // #590 {xmm|ymm|zmm, xmm|m16|mem|r32}
-  ROW(3, 1, 1, 0, 117, 55 , 10 , 0  , 0  , 0  ), // #591 {r32|m16|mem, xmm, i8|u8}
-  ROW(4, 1, 1, 0, 55 , 55 , 137, 10 , 0  , 0  ), // #592 {xmm, xmm, r32|m8|mem, i8|u8}
+  ROW(3, 1, 1, 0, 118, 55 , 10 , 0  , 0  , 0  ), // #591 {r32|m16|mem, xmm, i8|u8}
+  ROW(4, 1, 1, 0, 55 , 55 , 138, 10 , 0  , 0  ), // #592 {xmm, xmm, r32|m8|mem, i8|u8}
   ROW(4, 1, 1, 0, 55 , 55 , 25 , 10 , 0  , 0  ), // #593 {xmm, xmm, r32|m32|mem, i8|u8}
   ROW(4, 0, 1, 0, 55 , 55 , 26 , 10 , 0  , 0  ), // #594 {xmm, xmm, r64|m64|mem, i8|u8}
-  ROW(4, 1, 1, 0, 55 , 55 , 117, 10 , 0  , 0  ), // #595 {xmm, xmm, r32|m16|mem, i8|u8}
+  ROW(4, 1, 1, 0, 55 , 55 , 118, 10 , 0  , 0  ), // #595 {xmm, xmm, r32|m16|mem, i8|u8}
   ROW(2, 1, 1, 0, 92 , 149, 0  , 0  , 0  , 0  ), // #596 {k, xmm|ymm|zmm}
   ROW(2, 1, 1, 0, 57 , 55 , 0  , 0  , 0  , 0  ), // #597 {ymm, xmm}
   ROW(2, 1, 1, 0, 57 , 57 , 0  , 0  , 0  , 0  ), // #598 {ymm, ymm}
   ROW(3, 1, 1, 0, 57 , 57 , 55 , 0  , 0  , 0  ), // #599 {ymm, ymm, xmm}
-  ROW(3, 1, 1, 2, 127, 44 , 45 , 0  , 0  , 0  ), // #600 {mem, <edx>, <eax>}
-  ROW(3, 0, 1, 2, 127, 44 , 45 , 0  , 0  , 0  )  // #601 {mem, <edx>, <eax>}
+  ROW(3, 1, 1, 2, 128, 44 , 45 , 0  , 0  , 0  ), // #600 {mem, <edx>, <eax>}
+  ROW(3, 0, 1, 2, 128, 44 , 45 , 0  , 0  , 0  )  // #601 {mem, <edx>, <eax>}
 };
 #undef ROW
 
@@ -5428,6 +5428,7 @@ const InstDB::OpSignature InstDB::_op_signature_table[] = {
   ROW(F(RegSt), 0x00),
   ROW(F(ImmI32) | F(ImmI64) | F(Rel8) | F(Rel32), 0x00),
   ROW(F(RegGpd) | F(Mem32) | F(ImmI32) | F(ImmI64) | F(Rel32), 0x00),
+  ROW(F(ImmU16), 0x00),
   ROW(F(ImmI16) | F(ImmU16) | F(ImmI32) | F(ImmU32), 0x00),
   ROW(F(MemUnspecified) | F(Mem32) | F(Mem48), 0x00),
   ROW(F(MemUnspecified) | F(Mem80), 0x00),
@@ -5459,7 +5460,6 @@ const InstDB::OpSignature InstDB::_op_signature_table[] = {
   ROW(F(RegGpd) | F(RegGpq), 0x00),
   ROW(F(RegMm) | F(MemUnspecified) | F(Mem64) | F(ImmI8) | F(ImmU8), 0x00),
   ROW(F(RegMm) | F(MemUnspecified) | F(Mem32), 0x00),
-  ROW(F(ImmU16), 0x00),
   ROW(F(RegGpw) | F(RegGpd) | F(MemUnspecified) | F(Mem16), 0x00),
   ROW(F(RegGpq) | F(MemUnspecified) | F(Mem16), 0x00),
   ROW(F(MemUnspecified) | F(FlagMemBase) | F(FlagMemDs), 0x00),
